@@ -30,7 +30,11 @@ def walkOp (j : Json) : Except String Json := do
     pure (c, es))
   let jail ← strs j "jail"
   let toml ← strs j "toml"
-  let fs : FS String := { dirs := dirs, inJail := fun c => jail.contains c, hasToml := fun c => toml.contains c }
+  let nested : List String := match j.getObjValAs? (Array String) "nested" with
+    | .ok xs => xs.toList
+    | .error _ => []
+  let fs : FS String := { dirs := dirs, inJail := fun c => jail.contains c, hasToml := fun c => toml.contains c,
+                          inNested := fun c => nested.contains c }
   let fuel := fs.fuel
   match walk fs root fuel with
   | .error .fuel => pure (Json.mkObj [("exc", "fuel"), ("fuel", fuel)])
